@@ -53,6 +53,12 @@ func init() {
 			for _, u := range enum.SeqUnits("bytes", "utf8", len(enum.ByteAlphabets["utf8"]), l+1, 2) {
 				us = append(us, core.Unit{Name: u})
 			}
+			if tier != "thorough" {
+				// one small focused alphabet in the quick tier too: fielded groups with numeric field names
+				for _, u := range enum.SeqUnits("tok", "nf", len(enum.Alphabets["nf"]), 7, 2) {
+					us = append(us, core.Unit{Name: u, Weight: 2})
+				}
+			}
 			if tier == "thorough" {
 				for _, a := range []string{"paren", "range", "unary", "bool", "cmp"} {
 					for _, u := range enum.SeqUnits("tok", a, len(enum.Alphabets[a]), 8, 2) {
@@ -63,11 +69,12 @@ func init() {
 			us = append(us, editUnits(tier)...)
 			maxN := 1024
 			if tier == "thorough" {
-				maxN = 8192
+				maxN = 4096 // printing a 4096-deep tree is already quadratic (10^8 bytes per call)
 			}
 			for i := range enum.SigmaFull {
 				for f := range frames {
-					us = append(us, core.Unit{Name: fmt.Sprintf("family|%d|%d|%d", i, maxN, f), Weight: 6})
+					// weight 0: the families run after the exhaustive spaces, so a deadline cuts them first
+					us = append(us, core.Unit{Name: fmt.Sprintf("family|%d|%d|%d", i, maxN, f), Weight: 0})
 				}
 			}
 			return us
@@ -108,7 +115,7 @@ func init() {
 		},
 		Bounds: func(tier string) map[string]any {
 			if tier == "thorough" {
-				return map[string]any{"N_full": 5, "N_focused": 8, "L_lex": 6, "L_utf8": 7, "family_tokens": 8192, "budget_per_call": c01Budget}
+				return map[string]any{"N_full": 5, "N_focused": 8, "L_lex": 6, "L_utf8": 7, "family_tokens": 4096, "budget_per_call": c01Budget}
 			}
 			return map[string]any{"N_full": 4, "L_lex": 4, "L_utf8": 5, "family_tokens": 1024, "budget_per_call": c01Budget}
 		},
